@@ -314,8 +314,12 @@ def run_case(case):
     """case: {"w": [...], "bs": n, "mode": {sparse, tight, nolog}, "transformer": bool, "mlw": int|None, "route": "engine"|"page"}"""
     w, bs, mode = case["w"], case["bs"], case["mode"]
     transformer, mlw = bool(case.get("transformer")), case.get("mlw")
-    tr = {"w": list(w), "bs": bs, "mode": dict(mode), "outcome": "ok", "batches": [], "res": []}
-    images = [make_image(i + 1, wi) for i, wi in enumerate(w)]
+    tr = {"w": list(w), "bs": bs, "mode": dict(mode), "outcome": "ok", "batches": [], "res": [], "alias": []}
+    uniq = [make_image(i + 1, wi) for i, wi in enumerate(w)]
+    # case["alias"][j] = index into w of the object standing at input position j (the same ndarray object may occur at several
+    # positions of the list handed to process_lines); default: every position holds its own object
+    al = case.get("alias") or list(range(len(w)))
+    images = [uniq[a] for a in al]
     eng = None
     old = signal.signal(signal.SIGALRM, _alarm)
     signal.alarm(CASE_TIMEOUT)
@@ -323,13 +327,18 @@ def run_case(case):
         eng = StubEngine(_config_path(mlw), bs, "transformer" if transformer else "ctc")
         with contextlib.redirect_stdout(io.StringIO()):
             texts, logits, coords = _call(eng, images, mode, case.get("route", "engine"))
-        if not (len(texts) == len(logits) == len(coords) == len(w)):
+        if not (len(texts) == len(logits) == len(coords) == len(al)):
             tr["outcome"] = "length"
         else:
-            for i in range(len(w)):
-                r = project_line(texts[i], logits[i], coords[i], transformer)
-                r["ref"] = reference_digest(i + 1, w[i], mode, transformer, mlw)
-                tr["res"].append(r)
+            first = {}
+            for j, a in enumerate(al):
+                r = project_line(texts[j], logits[j], coords[j], transformer)
+                r["ref"] = reference_digest(a + 1, w[a], mode, transformer, mlw)
+                if a not in first:
+                    first[a] = r
+                else:
+                    tr["alias"].append({"src": a + 1, "res": r})
+            tr["res"] = [first[a] for a in range(len(w))] if len(first) == len(w) else []
     except CaseTimeout:
         tr["outcome"] = "timeout"
     except Exception as ex:          # part of the observation
@@ -339,4 +348,13 @@ def run_case(case):
         signal.signal(signal.SIGALRM, old)
     if eng is not None:
         tr["batches"] = eng.seen[:64]
+        if case.get("alias"):
+            # the network saw every aliased object once per position; the trace lists each object once (first occurrence)
+            seen, kept = set(), []
+            for b in tr["batches"]:
+                ids = [t for t in b["ids"] if t not in seen]
+                seen.update(ids)
+                if ids:
+                    kept.append(dict(b, ids=ids, rows=[r for r in b["rows"] if r["tag"] in ids][:len(ids)]))
+            tr["batches"] = kept
     return tr
